@@ -24,7 +24,7 @@ def n_worlds(ctx):
     return 160 if ctx.tier == "quick" else 2000
 
 
-def corpus_worlds(pid_dirs=("C05",)):
+def corpus_worlds(pid_dirs=("C05", "C10")):
     out = []
     for d in pid_dirs:
         p = os.path.join(core.ROOT, "corpus", d)
@@ -44,8 +44,15 @@ def corpus_worlds(pid_dirs=("C05",)):
 def gen_worlds(seed, n):
     rng = random.Random("S-sim/%s" % seed)
     ws = corpus_worlds()
+    n_plan = max(4, n // 6)        # worlds driven by the optimisation-backed planners
+    plan = ["ILP", "TetriSched_Gurobi", "ILP", "TetriSched_Gurobi", "TetriSched_CPLEX"]   # Z3: known finding F20
+    k = 0
     while len(ws) < n:
-        w = simgen.gen_world(rng)
+        if len(ws) >= n - n_plan:
+            w = simgen.gen_planner_world(rng, plan[k % len(plan)])
+            k += 1
+        else:
+            w = simgen.gen_world(rng)
         if simgen.signature(w):
             continue           # inputs matching the signature of a known finding run in their own stream
         ws.append(w)
@@ -74,7 +81,13 @@ def run_worlds(worlds, jobs=14, chunk=12, timeout=900):
                      "idle": [], "counters": [], "graphs": []} for _ in ws]
     with ThreadPoolExecutor(max_workers=jobs) as ex:
         res = list(ex.map(one, chunks))
-    return [r for c in res for r in c]
+    out = [r for c in res for r in c]
+    for r in out:
+        # the solvers installed here are size-limited: a model over the limit is a limit of the sandbox, not of /repo
+        if r["status"] == "exception" and any(m in (r.get("error") or "") for m in
+                                              ("size-limited license", "Promotional version", "DOcplexLimitsExceeded")):
+            r["status"] = "solver-licence-limit"
+    return out
 
 
 def cached_runs(ctx):
